@@ -274,7 +274,15 @@ class ReplSet(SyncObjConsumer):
         Remove and return an arbitrary set element.
         Raises KeyError if the set is empty.
         """
-        return self.__data.pop()
+        if not self.__data:
+            raise KeyError('pop from an empty set')
+        # set.pop() takes whichever element comes first in the set's internal table. That order
+        # differs between a replica that applied the whole history and one restored from a
+        # snapshot (and between processes with different hash seeds), so replicas would remove
+        # different elements. Take a well-defined element instead.
+        item = min(self.__data, key=repr)
+        self.__data.remove(item)
+        return item
 
     @replicated
     def clear(self):
